@@ -9,6 +9,8 @@ import AnySyncModel.Driver.PubSub
 import AnySyncModel.Driver.Keys
 import AnySyncModel.Driver.Ldiff
 import AnySyncModel.Driver.KV
+import AnySyncModel.Driver.NodeConf
+import AnySyncModel.Driver.Space
 /-!
 `modeld <area>`: reads one operation per line on stdin, prints exactly one line per operation.
 Stateless areas expose `step : String → String`; stateful areas expose
@@ -46,4 +48,6 @@ def main (args : List String) : IO UInt32 := do
   | ["keys"] => loopState stdin stdout Driver.Keys.step Driver.Keys.init; return 0
   | ["ldiff"] => loopState stdin stdout Driver.Ldiff.step Driver.Ldiff.init; return 0
   | ["kv"] => loopState stdin stdout Driver.KV.step Driver.KV.init; return 0
+  | ["nodeconf"] => loopPure stdin stdout Driver.NodeConf.step; return 0
+  | ["space"] => loopPure stdin stdout Driver.Space.step; return 0
   | _ => IO.eprintln s!"modeld: unknown area {args}"; return 2
